@@ -46,10 +46,11 @@ const (
 	OpYield
 	OpExit
 	OpPostUnlock
+	OpTryLock
 )
 
 var opNames = [...]string{"start", "lock", "unlock", "wait", "waitwake", "signal", "broadcast", "intn",
-	"loadu32", "storeu32", "mapload", "maploadorstore", "yield", "exit", "postunlock"}
+	"loadu32", "storeu32", "mapload", "maploadorstore", "yield", "exit", "postunlock", "trylock"}
 
 func (k OpKind) String() string { return opNames[k] }
 
@@ -424,6 +425,25 @@ func (m *Mutex) Lock() {
 	}
 	m.held = true
 	s.logOp(Op{Kind: OpLock})
+}
+
+// TryLock never blocks: it is an ordinary (fine-grained) scheduling point.
+func (m *Mutex) TryLock() bool {
+	s := cur
+	if s.self() == nil {
+		if m.held {
+			return false
+		}
+		m.held = true
+		return true
+	}
+	s.point(OpTryLock, nil)
+	ok := !m.held
+	if ok {
+		m.held = true
+	}
+	s.logOp(Op{Kind: OpTryLock, Hit: ok})
+	return ok
 }
 
 func (m *Mutex) Unlock() {
